@@ -75,6 +75,8 @@ void drv_k4_toomeval(int tier, unsigned long seed, const char *extra) {
   nn = k4_sizes(ns, tier); if (sh.pure) nn = 3;
   for (i = 0; i < nn; i++) for (k = 3; k <= 13; k++) for (hs = 0; hs < 3; hs++) {
     mp_size_t n = ns[i], hn = hs == 0 ? 1 : hs == 1 ? n : 1 + (mp_size_t)rnd_below(n); int nk = tier ? NKINDS : 1, c = i + k + hs;
+    if (!tier && hs == (i + k) % 3 && hs != 1) continue;                               /* quick: two of the three top-piece sizes */
+    if (n > 30 && k != 3 && k != 4 && k != 7 && k != 8 && k != 12 && !(tier && n < 200)) continue;   /* larger n: the degrees of toom8h / toom8_sqr (p, q - 1) */
     x++; if (!MINE(sh, x)) continue;
     rec_reset("k4_toomeval", x, seed);
     for (w = 0; w < 6; w++) {
@@ -96,5 +98,116 @@ void drv_k4_toomeval(int tier, unsigned long seed, const char *extra) {
         ev_couple(2 * m + 1, m, psns[j][0], psns[j][1], (i + j + adv) % NKINDS, adv, j & 1);
         if (adv == 0) ev_couple(2 * m + 2, m, psns[j][0], psns[j][1], (i + j + 3) % NKINDS, 0, !(j & 1)); }
     }
+  }
+}
+
+/* ------------------------------------------------------------------ k4_fftmod */
+/* Residues mod p = 2^(64*limbs) + 1 are {t, limbs+1} read as a two's complement number (fft/fermat_to_mpz.c: "hi = i[limbs]; if (hi < 0L) mpn_neg_n ..."):
+   the top limb is a signed excess.  The in-tree tests draw operands with mpir_random_fermat (gmp-impl.h): limbs random, top limb in (-1024, 1024). */
+#define NRES 20
+static void res_fill(mp_ptr p, mp_size_t L, int sel) {
+  mp_size_t i; mp_limb_t ones = ~(mp_limb_t)0;
+  switch (sel) {
+  case 0: case 1: case 2: case 3: case 4: case 5: case 6: rnd_limbs(p, L, sel); p[L] = (mp_limb_t)((long)rnd_below(2047) - 1023); break;   /* as mpir_random_fermat */
+  case 7: rnd_limbs(p, L, 0); p[L] = 0; break;
+  case 8: rnd_limbs(p, L, 3); p[L] = 1; break;
+  case 9: rnd_limbs(p, L, 0); p[L] = ones; break;
+  case 10: rnd_limbs(p, L, 1); p[L] = 1023; break;
+  case 11: rnd_limbs(p, L, 4); p[L] = (mp_limb_t)-1023L; break;
+  case 12: for (i = 0; i < L; i++) p[i] = 0; p[L] = 1; break;                  /* 2^(nw) = p - 1 = -1 mod p */
+  case 13: for (i = 0; i < L; i++) p[i] = 0; p[0] = 1; p[L] = 1; break;        /* p itself */
+  case 14: for (i = 0; i < L; i++) p[i] = 0; p[L] = ones; break;               /* -2^(nw) = 1 mod p */
+  case 15: for (i = 0; i <= L; i++) p[i] = ones; break;                        /* -1 */
+  case 16: for (i = 0; i <= L; i++) p[i] = 0; break;                           /* 0 */
+  case 17: for (i = 0; i < L; i++) p[i] = ones; p[L] = 0; break;               /* 2^(nw) - 1 */
+  case 18: for (i = 0; i < L; i++) p[i] = 0; p[L - 1] = (mp_limb_t)1 << 63; p[L] = 0; break;   /* single top bit */
+  default: for (i = 0; i < L; i++) p[i] = ones; p[L] = 1; break;               /* 2^(nw+1) - 1 */
+  }
+}
+enum { FM_NORM, FM_MUL, FM_DIV, FM_ADJ, FM_ADJS, FM_LSHB, FM_RSHB, FM_BFLY, FM_IBFLY, FM_BFLYS, FM_IBFLYS, FM_BTW, FM_IBTW };
+/* one-operand routines */
+static void ev_fm1(int which, mp_size_t L, int sel, long a1, long a2, int inplace, int place) {
+  mp_ptr a = gb_get(0, L + 1, place), r = inplace ? a : gb_get(1, L + 1, !place), tmp = gb_get(2, L + 1, place); mp_size_t i;
+  res_fill(a, L, sel);
+  if (which == FM_NORM && sel < 12 && sel % 3 == 0) a[L] = rnd64();          /* tests/fft/t-normmod_2expp1.c: "mpn_rrandom(nn, state, limbs + 1)": any top limb */
+  if (which == FM_NORM && sel == 10) a[L] = ~(mp_limb_t)0 >> 1;
+  if (which == FM_NORM && sel == 11) a[L] = (mp_limb_t)1 << 63;
+  fn_begin(which == FM_NORM ? "mpn_normmod_2expp1" : which == FM_MUL ? "mpn_mul_2expmod_2expp1" : which == FM_DIV ? "mpn_div_2expmod_2expp1" : which == FM_ADJ ? "mpir_fft_adjust" : "mpir_fft_adjust_sqrt2");
+  fn_in_limbs("a", a, L + 1); fn_in_int("limbs", L);
+  if (which == FM_MUL || which == FM_DIV) fn_in_int("d", a1);
+  if (which == FM_ADJ || which == FM_ADJS) { fn_in_int("i", a1); fn_in_int("w", a2); }
+  fn_mid(); if (!inplace) gb_fill(r, L + 1); gb_fill(tmp, L + 1);
+  switch (which) {
+  case FM_NORM: mpn_normmod_2expp1(a, L); r = a; break;
+  case FM_MUL: mpn_mul_2expmod_2expp1(r, a, L, (mp_bitcnt_t)a1); break;
+  case FM_DIV: mpn_div_2expmod_2expp1(r, a, L, (mp_bitcnt_t)a1); break;
+  case FM_ADJ: mpir_fft_adjust(r, a, a1, L, (mp_bitcnt_t)a2); break;
+  default: mpir_fft_adjust_sqrt2(r, a, a1, L, (mp_bitcnt_t)a2, tmp); break; }
+  (void)i; fn_out_limbs("r", r, L + 1); fn_end();
+}
+/* two-operand butterflies: outputs in separate buffers; the inverse forms may clobber their inputs (logged before the call) */
+static void ev_fm2(int which, mp_size_t L, int sel1, int sel2, long a1, long a2, int place) {
+  static const char *nm[] = {"", "", "", "", "", "mpir_butterfly_lshB", "mpir_butterfly_rshB", "mpir_fft_butterfly", "mpir_ifft_butterfly", "mpir_fft_butterfly_sqrt2", "mpir_ifft_butterfly_sqrt2",
+                             "mpir_fft_butterfly_twiddle", "mpir_ifft_butterfly_twiddle"};
+  mp_ptr a = gb_get(0, L + 1, place), b = gb_get(1, L + 1, !place), s = gb_get(2, L + 1, place), t = gb_get(3, L + 1, !place), tmp = gb_get(4, L + 1, place);
+  res_fill(a, L, sel1); res_fill(b, L, sel2);
+  fn_begin(nm[which]); fn_in_limbs("a", a, L + 1); fn_in_limbs("b", b, L + 1); fn_in_int("limbs", L);
+  if (which == FM_LSHB || which == FM_RSHB) { fn_in_int("x", a1); fn_in_int("y", a2); }
+  else if (which == FM_BTW || which == FM_IBTW) { fn_in_int("b1", a1); fn_in_int("b2", a2); }
+  else { fn_in_int("i", a1); fn_in_int("w", a2); }
+  fn_mid(); gb_fill(s, L + 1); gb_fill(t, L + 1); gb_fill(tmp, L + 1);
+  switch (which) {
+  case FM_LSHB: mpir_butterfly_lshB(s, t, a, b, L, a1, a2); break;
+  case FM_RSHB: mpir_butterfly_rshB(s, t, a, b, L, a1, a2); break;
+  case FM_BFLY: mpir_fft_butterfly(s, t, a, b, a1, L, (mp_bitcnt_t)a2); break;
+  case FM_IBFLY: mpir_ifft_butterfly(s, t, a, b, a1, L, (mp_bitcnt_t)a2); break;
+  case FM_BFLYS: mpir_fft_butterfly_sqrt2(s, t, a, b, a1, L, (mp_bitcnt_t)a2, tmp); break;
+  case FM_IBFLYS: mpir_ifft_butterfly_sqrt2(s, t, a, b, a1, L, (mp_bitcnt_t)a2, tmp); break;
+  case FM_BTW: mpir_fft_butterfly_twiddle(s, t, a, b, L, (mp_bitcnt_t)a1, (mp_bitcnt_t)a2); break;
+  default: mpir_ifft_butterfly_twiddle(s, t, a, b, L, (mp_bitcnt_t)a1, (mp_bitcnt_t)a2); break; }
+  fn_out_limbs("s", s, L + 1); fn_out_limbs("t", t, L + 1); fn_end();
+}
+static void ev_fermat(mp_size_t L, int sel, int place) {
+  mp_ptr a = gb_get(0, L + 1, place); mpz_t m; char *h, *q; long sz;
+  res_fill(a, L, sel); if (sel % 4 == 1) a[L] = rnd64();
+  fn_begin("mpir_fermat_to_mpz"); fn_in_limbs("a", a, L + 1); fn_in_int("limbs", L); fn_mid();
+  priv_begin(); mpz_init(m); mpir_fermat_to_mpz(m, a, L); sz = SIZ(m); h = hex_of_limbs(PTR(m), ABSIZ(m), SIZ(m) < 0); mpz_clear(m); priv_end();
+  q = malloc(strlen(h) + 3); sprintf(q, "\"%s\"", h); fn_out_raw("v", q); fn_out_int("sz", sz); fn_end(); free(q); free(h);
+}
+void drv_k4_fftmod(int tier, unsigned long seed, const char *extra) {
+  shard_t sh = shard_parse(extra); long x = 0; int ns[64], nn, i, r, c; static const int ds[] = {0, 1, 31, 32, 63};
+  nn = k4_sizes(ns, tier); if (sh.pure) nn = 3;
+  for (i = 0; i < nn; i++) for (r = 0; r < (tier ? 6 : 2); r++) {
+    mp_size_t L = ns[i]; long wn = 64 * L; int sel;
+    x++; if (!MINE(sh, x)) continue;
+    rec_reset("k4_fftmod", x, seed);
+    for (sel = 0; sel < NRES; sel++) {
+      int s2 = (int)rnd_below(NRES), pl = (sel + r) & 1; long d = sel < 5 ? ds[sel] : (long)rnd_below(64), w, n, k, j, ii, b1, b2;
+      c = sel + r + i;
+      ev_fm1(FM_NORM, L, sel, 0, 0, 1, pl);
+      ev_fm1(FM_MUL, L, sel, d, 0, c & 1, pl); ev_fm1(FM_DIV, L, sel, ds[c % 5], 0, !(c & 1), pl);
+      if (sel >= 12) { ev_fm1(FM_MUL, L, sel, 63, 0, 1, pl); ev_fm1(FM_DIV, L, sel, 63, 0, 0, pl); ev_fm1(FM_DIV, L, sel, 1, 0, 1, pl); }
+      /* FFT parameters as in the tests: limbs*64 = n*w with w = j*k, k a power of two, j dividing limbs */
+      j = 1; if (c % 3) { long cand[] = {L, 3, 5, 7, 9, 2, 4}; j = cand[rnd_below(7)]; if (L % j) j = 1; }
+      k = 1L << rnd_below(7); w = j * k; n = wn / w;
+      ii = c % 4 == 0 ? 0 : c % 4 == 1 ? n - 1 : (long)rnd_below(n);
+      ev_fm1(FM_ADJ, L, sel, ii, w, 0, pl);
+      if (c % 5 == 0) ev_fm1(FM_ADJ, L, sel, n, w, 0, pl);                          /* i*w = limbs*64: multiplication by -1 (fft/ifft_negacyclic.c passes n - i/2 with i = 0) */
+      ev_fm2(FM_BFLY, L, sel, s2, ii, w, pl); ev_fm2(FM_IBFLY, L, s2, sel, ii, w, !pl);
+      /* sqrt2 forms: the callers use them for odd w and odd i < 2n only (fft_negacyclic.c / fft_trunc_sqrt2.c: "if (w & 1)" ... i odd) */
+      { long jo = j; while (!(jo & 1)) jo >>= 1; if (L % jo) jo = 1; w = jo; n = wn / w; ii = 1 + 2 * (long)rnd_below(n); if (c % 6 == 0) ii = 1; if (c % 6 == 1) ii = 2 * n - 1;
+        ev_fm1(FM_ADJS, L, sel, ii, w, 0, pl); ev_fm2(FM_BFLYS, L, sel, s2, ii, w, pl); ev_fm2(FM_IBFLYS, L, s2, sel, ii, w, !pl); }
+      { long xx = c % 3 == 0 ? 0 : (long)rnd_below(L), yy = c % 4 == 0 ? 0 : c % 4 == 1 ? xx : (long)rnd_below(L);
+        ev_fm2(FM_LSHB, L, sel, s2, xx, yy, pl); ev_fm2(FM_RSHB, L, s2, sel, yy, xx, !pl); }
+      b1 = c % 4 == 0 ? 0 : (long)rnd_below(c % 2 ? wn : 2 * wn); b2 = c % 5 == 0 ? wn : (long)rnd_below(c % 3 ? wn : 2 * wn);
+      ev_fm2(FM_BTW, L, sel, s2, b1, b2, pl); ev_fm2(FM_IBTW, L, s2, sel, b2, b1, !pl);
+      ev_fermat(L, sel, pl);
+    }
+  }
+  /* mpir_revbin: every input for widths 0..8, then samples up to 24 bits */
+  x++; if (MINE(sh, x)) { long bits, v;
+    rec_reset("k4_fftmod", x, seed);
+    for (bits = 0; bits <= 24; bits++) for (v = 0; v < (1L << bits); v += (bits <= 8 ? 1 : 1 + (long)rnd_below((1L << bits) / 40))) {
+      fn_begin("mpir_revbin"); fn_in_int("v", v); fn_in_int("bits", bits); fn_mid(); fn_out_int("r", (long)mpir_revbin((mp_limb_t)v, (mp_limb_t)bits)); fn_end(); }
   }
 }
